@@ -1,6 +1,36 @@
 // ---- DualConnector as a cost model (C07): pre-summed matrix part over de-duplicated ids + 8 raw lanes ----
 impl DualConnector {
-    pub uninterp spec fn cost_m(&self) -> int;
+    /// magnitude bound on the raw scorer's costs chosen by conn_wf (a function of the scorer only: renumbering does not change it)
+    pub open spec fn cost_m(&self) -> int { scorer_cost_m(self.raw_scorer) }
+}
+/// some position below `upto` of the id list holds x
+pub open spec fn id_seen(ids: Seq<u16>, upto: int, x: int) -> bool { exists|k: int| 0 <= k < upto && #[trigger] ids[k] as int == x }
+/// every matrix id 0..n is referenced by some connection id
+pub open spec fn onto_ids(ids: Seq<u16>, n: int) -> bool { forall|x: int| 0 <= x < n ==> #[trigger] id_seen(ids, ids.len() as int, x) }
+/// inv[v] = the old matrix id that received new id v
+pub open spec fn inv_ok(m: Seq<u16>, inv: Seq<int>) -> bool {
+    forall|v: int| 0 <= v < inv.len() ==> { let x = #[trigger] inv[v]; 0 <= x < m.len() && m[x] as int == v }
+}
+/// position p is the image of some index under s
+pub open spec fn perm_hit(s: Seq<u16>, p: int) -> bool { exists|i: int| 0 <= i < s.len() && #[trigger] s[i] as int == p }
+/// a permutation of 0..n (is_perm0) reaches every position
+pub proof fn lemma_perm0_onto(s: Seq<u16>)
+    requires is_perm0(s),
+    ensures forall|p: int| 0 <= p < s.len() ==> #[trigger] perm_hit(s, p),
+{
+    let n = s.len() as int;
+    let t = Seq::new(s.len(), |i: int| s[i] as int + 1);
+    assert(inj_in(t, n)) by {
+        assert forall|i: int| 0 <= i < t.len() implies 1 <= #[trigger] t[i] <= n by { assert(t[i] == s[i] as int + 1); }
+        assert forall|i: int, j: int| 0 <= i < j < t.len() implies t[i] != t[j] by { assert(t[i] == s[i] as int + 1); assert(t[j] == s[j] as int + 1); }
+    }
+    lemma_pigeon(t, n);
+    assert forall|p: int| 0 <= p < s.len() implies #[trigger] perm_hit(s, p) by {
+        assert(covered(t, p + 1));
+        let i = choose|i: int| 0 <= i < t.len() && #[trigger] t[i] == p + 1;
+        assert(t[i] == s[i] as int + 1);
+        assert(s[i] as int == p);
+    }
 }
 impl CostModel for DualConnector {
     open spec fn conn_wf(&self) -> bool {
@@ -10,6 +40,10 @@ impl CostModel for DualConnector {
         &&& self.left_feat_ids.len() == self.left_conn_id_map.len() && self.right_feat_ids.len() == self.right_conn_id_map.len()
         &&& forall|i: int| 0 <= i < self.left_conn_id_map.len() ==> (#[trigger] self.left_conn_id_map[i] as int) < self.matrix_connector.spec_num_left()
         &&& forall|i: int| 0 <= i < self.right_conn_id_map.len() ==> (#[trigger] self.right_conn_id_map[i] as int) < self.matrix_connector.spec_num_right()
+        // what create_matrix_connector builds and map_connection_ids relies on: BOS/EOS is matrix id 0 and every matrix id is referenced
+        // (otherwise the renumbering in map_connection_ids leaves u16::MAX in the inner mapper)
+        &&& self.left_conn_id_map[0] == 0 && self.right_conn_id_map[0] == 0
+        &&& onto_ids(self.left_conn_id_map@, self.matrix_connector.spec_num_left()) && onto_ids(self.right_conn_id_map@, self.matrix_connector.spec_num_right())
         &&& 0 <= self.cost_m() && self.raw_scorer.costs_within(self.cost_m()) && 32768 + 8 * self.cost_m() <= i32::MAX as int
     }
     open spec fn conn_shape(&self) -> bool { self.conn_wf() }
